@@ -147,8 +147,22 @@ def run_cases(ctx, mon, ncases, body, wall=None, only_case=None):
 
 
 def history(L, rng, ex, nops, maxlen, profile='wf', weights=None, esc=False):
+    # 2% of the histories work on long texts (up to 240 characters) and 2% pile many settings onto one value, so
+    # that size-dependent paths (thresholds, fast paths) are not systematically outside the workload
+    r = rng.random()
+    if r < 0.02:
+        maxlen = 240
     hg = HistoryGen(L, rng, ex, maxlen=maxlen, profile=profile, weights=weights, esc=esc)
+    if r < 0.02:
+        hg.LEN_CAP = 600
     hg.run_history(nops)
+    if 0.02 <= r < 0.04:
+        ri = hg.pick_val()
+        if ri is not None:
+            for _ in range(rng.randint(8, 16)):
+                op = hg.mk_op('apply')
+                op['r'] = ri
+                ex.run(op)
     return hg
 
 
